@@ -65,7 +65,9 @@ theorem grid_roundtrip (g : GridIn) (h : g.Compat) (hc : ∀ r ∈ g.rows, r.Cle
     rw [e] at this
     have := h.1
     simp at *; omega
-  exact rdGrids_rows g.wide g.short g.rows hne hc (fun hs => g.short_rows hs)
+  have := rdGrids_rows g.wide g.short g.rows hne hc (fun hs => g.short_rows hs) [] (by simp)
+  rw [List.nil_append] at this
+  exact this
 
 /-! ### non-vacuity -/
 
